@@ -7,9 +7,8 @@ def runBlocks (bs : Nat) (enc dec : Bytes → Bytes) (src : Bytes) : String :=
   if src.length == 0 || src.length % bs != 0 then "bad-op"
   else s!"ok {toHex (ecb bs enc src)} {toHex (ecb bs dec src)}"
 
-/-- `blk cipher=<name> key=<hex> [rounds=<int>] [salt=<hex>] [t1=<nat>] src=<hex>` -/
-def handle (line : String) : String :=
-  let o := parseOp line
+/-- `blk cipher=<name> key=<hex> [rounds=<int>] [salt=<hex>] [t1=<nat>] src=<hex> [expect=<hex>]` -/
+def handle1 (o : Op) : String :=
   if o.cmd != "blk" then "bad-op" else
   match o.hex? "key", o.hex? "src" with
   | some key, some src =>
@@ -53,5 +52,13 @@ def handle (line : String) : String :=
         | .ok k => runBlocks 8 (Rc2.encrypt k) (Rc2.decrypt k) src
     | _ => "bad-op"
   | _, _ => "bad-op"
+
+/-- with `expect=<published ciphertext>` (corpus): ` kat=ok` iff the MODEL's Encrypt output equals it -/
+def handle (line : String) : String :=
+  let o := parseOp line
+  let r := handle1 o
+  match o.get? "expect" with
+  | none => r
+  | some e => if r.startsWith ("ok " ++ e ++ " ") then r ++ " kat=ok" else r ++ " kat=MODEL-MISMATCH"
 
 end XC.C12
